@@ -397,7 +397,7 @@ fn part_a(args: &Args, rep: &mut Report, rng: &mut Rng) {
         }
     }
     ar.rep.count("arith_lattice_cases", n_lat);
-    let n = if args.thorough() { 200_000_000u64 } else { 2_500_000 };
+    let n = if args.miri() { 300u64 } else if args.thorough() { 200_000_000u64 } else { 2_500_000 };
     for _ in 0..n {
         let v = rand_usize(rng);
         let log = rng.below(BITS as u64) as u32;
